@@ -268,9 +268,9 @@ def _c09(seed, max_size, n_random, depth):
 
 def tauto_bounded(root, tier, seed):
     from vc import replay as rp
-    ms, nr, dp = (3, 150, 3) if tier == 'quick' else (4, 3000, 4)
+    ms, nr, dp = (3, 150, 3) if tier == 'quick' else (4, 1000, 4)
     jobs = [{'expr': f'_c09({seed}, {ms}, {nr}, {dp})'}]
-    real = rp.run_real(jobs, prelude=TAUTO_PRELUDE, root=root, timeout=3000)[0]
+    real = rp.run_real(jobs, prelude=TAUTO_PRELUDE, root=root, timeout=5000)[0]
     if not real['ok']:
         return {'expr': jobs[0]['expr'], 'real': real, 'failed_clause': 'bounded driver raised: ' + str(real.get('exc'))}, 0, (ms, nr, dp)
     d = rp.repr_to_data(real['repr'])
